@@ -92,5 +92,15 @@ pub fn gen(seed: u64, tier: &str) -> Vec<Value> {
             json!({"n": name, "nb": bytes_json(name.as_bytes()), "bin": bin, "v": bytes_json(&v)})
         }).collect();
         json!({"class":"metadata_map","entries":entries,"pad": i % 2 == 0})
-    }).collect()
+    }).collect::<Vec<Value>>().into_iter().chain((0..4).map(|j| {
+        // scale: maps of 60 entries - 20 values under one ASCII name, 10 under one binary name, 30 distinct names - in shuffled order
+        let mut e: Vec<Value> = vec![];
+        for v in 0..20u8 { e.push(json!({"n":"x","nb":bytes_json(b"x"),"bin":false,"v":bytes_json(&[b'a' + (v % 26), b'0' + (v % 10)])})); }
+        for v in 0..10u8 { e.push(json!({"n":"x-bin","nb":bytes_json(b"x-bin"),"bin":true,"v":bytes_json(&vec![v; (v % 4) as usize])})); }
+        for v in 0..30u8 { let name = format!("n{v}{}", if v % 3 == 0 { "-bin" } else { "" }); let bin = v % 3 == 0;
+            e.push(json!({"n":name,"nb":bytes_json(name.as_bytes()),"bin":bin,"v":bytes_json(&[b'k', v])})); }
+        if j % 2 == 1 { e.reverse(); }
+        if j >= 2 { let n = e.len(); for i in 0..n / 2 { if i % 3 == 0 { e.swap(i, n - 1 - i); } } }
+        json!({"class":"large_map","entries":e,"pad": j % 2 == 0})
+    })).collect()
 }
